@@ -1,0 +1,18 @@
+//go:build verif
+// +build verif
+
+package core
+
+// Verification hook for property C17 (add-only, compiled only with -tags verif):
+// lets the verification harness interpose on every TxConverter of a StateProcessor, including the
+// unexported default (EVM) converter, so that it can observe what ApplyMessageEntry hands to a
+// converter (available gas, state) and what the converter hands back. Nothing here changes behaviour
+// unless the harness installs a wrapper.
+
+// VerifWrapConvertersC17 replaces every registered converter c (and the default one) by wrap(c).
+func (p *StateProcessor) VerifWrapConvertersC17(wrap func(TxConverter) TxConverter) {
+	p.defaultConverter = wrap(p.defaultConverter)
+	for addr, c := range p.txConverters {
+		p.txConverters[addr] = wrap(c)
+	}
+}
